@@ -149,12 +149,25 @@ def run_b(bid, verbose):
         import gc
         del RELEASE[:]
         gc.collect()
+        import os, sys
+        saved = None
+        if verbose >= 2:                  # the solver's own (native) output goes to file descriptor 1 directly
+            sys.stdout.flush(); sys.stderr.flush()
+            saved = (os.dup(1), os.dup(2))
+            devnull = os.open(os.devnull, os.O_WRONLY)
+            os.dup2(devnull, 1); os.dup2(devnull, 2)
+            os.close(devnull)
         try:
             ret = b.pep.solve(verbose=verbose, solver="CLARABEL", **kw)
             if ret is None:
                 out = "none"
         except Exception as e:
             ret, out = None, "raises:" + type(e).__name__
+        finally:
+            if saved is not None:
+                sys.stdout.flush(); sys.stderr.flush()
+                os.dup2(saved[0], 1); os.dup2(saved[1], 2)
+                os.close(saved[0]); os.close(saved[1])
     h = hashlib.sha256()
     rows = hashlib.sha256()
     if out != "num" and b.pep.wrapper is None:
